@@ -22,6 +22,11 @@
 //    no characters per class; blanks of every kind; short and NULL descriptions) on an exact-size heap copy.
 //    O: every field equals an independent reading of the description; a generated text gives the same verdict and the
 //    same elements with the described format and with the same delimiters set directly.
+//
+// mpt_node_parse (first case byte 0x20..0x3f): target node with or without children x FILE (memory stream / tmpfile over a generated
+//    text, or NULL) x format description (round-4 generator) x limits string (flag letters, refused characters, "", NULL).
+//    O: error return => the target's children are the same nodes with the same content; success => the children are the tree
+//    mpt_parse_node makes of the same text with the same format and flags; verdicts agree; old children released once (ASan/leak).
 #include <dirent.h>
 #include <signal.h>
 #include <unistd.h>
@@ -453,6 +458,211 @@ static void run_format(Ctx &c) {
   if (!is_null && desc.size() > 6 && lib.ev.size() >= 2) c.nontrivial();
 }
 
+// ---- mpt_node_parse: the FILE level wrapper (node, FILE *, format, limits, logger) around mpt_parse_node
+//
+// limits (parse.h MPT_NAMEFLAG, parse_accept.c): letters f c n s w e b, upper case for section names, lower case for
+// option names, read up to the first white space; any other character is refused; "" allows continuing numerals only;
+// mpt_node_parse replaces a NULL limits string by "ns".
+struct RefLimits { bool ok = true; uint16_t sect = 0, opt = 0; };
+static RefLimits ref_limits(const std::string *lim) {
+  RefLimits r;
+  std::string s = lim ? *lim : "ns";
+  if (s.empty()) { r.sect = r.opt = NumCont; return r; }
+  for (unsigned char ch : s) {
+    if (ref_blank(ch)) break;
+    uint16_t bit;
+    switch (ch | 0x20) {
+      case 'f': bit = NumStart; break;
+      case 'c': bit = NumCont; break;
+      case 'n': bit = NumStart | NumCont; break;
+      case 's': bit = Special; break;
+      case 'w': bit = Space; break;
+      case 'e': bit = Empty; break;
+      case 'b': bit = Binary; break;
+      default: bit = 0; break;
+    }
+    if (!bit || ch >= 0x80 || !((ch >= 'a' && ch <= 'z') || (ch >= 'A' && ch <= 'Z'))) { r.ok = false; return r; }
+    if (ch >= 'A' && ch <= 'Z') r.sect |= bit; else r.opt |= bit;
+  }
+  return r;
+}
+static std::string draw_limits(Ctx &c, bool &is_null) {
+  static const char known[] = "nsNSfcwebFCWEB";
+  static const char bad[] = "-x1Z_,.*";
+  is_null = false;
+  std::string s;
+  switch (c.weighted({6, 3, 1, 4})) {
+    case 1: is_null = true; return s;
+    case 2: return s;  // ""
+    default: break;
+  }
+  size_t n = c.range(1, 8);
+  for (size_t i = 0; i < n; i++) s += known[c.pick(sizeof known - 1)];
+  switch (c.weighted({8, 4, 2, 1})) {
+    case 1: s.insert(c.range(0, s.size()), 1, bad[c.pick(sizeof bad - 1)]); break;  // a character the function refuses
+    case 2: s += " \t"[c.pick(2)]; s += bad[c.pick(sizeof bad - 1)]; s += known[c.pick(sizeof known - 1)]; break;  // ends at white space
+    case 3: s.insert(c.range(0, s.size()), 1, (char)c.range(0x80, 0xff)); break;
+    default: break;
+  }
+  return s;
+}
+struct ExactStr {  // exact-size heap copy of a C string (NULL stays NULL)
+  char *p = 0;
+  ExactStr(const std::string &s, bool is_null) { if (!is_null) { p = (char *)malloc(s.size() + 1); memcpy(p, s.c_str(), s.size() + 1); } }
+  ~ExactStr() { free(p); }
+  ExactStr(const ExactStr &) = delete;
+};
+struct TextFile {  // FILE over the generated text: memory stream (any bytes, any length), now and then an anonymous temporary file
+  FILE *f = 0;
+  char *buf = 0;
+  size_t len = 0, pos = 0;
+  bool memstream = false;
+  static ssize_t rd(void *cookie, char *to, size_t n) {
+    TextFile *t = (TextFile *)cookie;
+    size_t left = t->len - t->pos;
+    if (n > left) n = left;
+    if (n) memcpy(to, t->buf + t->pos, n);
+    t->pos += n;
+    return (ssize_t)n;
+  }
+  TextFile(const std::string &doc, bool prefer_mem) {
+    if (prefer_mem) {
+      len = doc.size();
+      buf = (char *)malloc(len ? len : 1);  // exact size
+      if (len) memcpy(buf, doc.data(), len);
+      cookie_io_functions_t io = {rd, 0, 0, 0};
+      f = fopencookie(this, "r", io);
+      memstream = f != 0;
+    }
+    if (!f && (f = tmpfile())) {
+      if (!doc.empty()) fwrite(doc.data(), 1, doc.size(), f);
+      rewind(f);
+    }
+  }
+  ~TextFile() { if (f) fclose(f); free(buf); }
+  TextFile(const TextFile &) = delete;
+};
+
+static void run_node_parse(Ctx &c) {
+  c.label("entry: mpt_node_parse");
+  // arguments
+  bool fmt_null = false, lim_null = false;
+  std::string desc = draw_description(c, fmt_null);
+  std::string limits = draw_limits(c, lim_null);
+  bool no_file = c.chance(12);
+  bool populated = !c.chance(80);
+  bool prefer_mem = !c.chance(10);
+  std::vector<uint8_t> deco = deco_bytes(c);
+  std::vector<uint8_t> mut;
+  if (c.chance(100)) mut = c.bytes(c.range(1, 6));
+  RefFormat rf = ref_format(fmt_null ? 0 : &desc);
+  RefLimits rl = ref_limits(lim_null ? 0 : &limits);
+  c.logf("entry: mpt_node_parse, format %s%s%s, limits %s%s%s (%s), file %s", fmt_null ? "NULL" : "\"", fmt_null ? "" : brief(desc, 60).c_str(), fmt_null ? "" : "\"",
+         lim_null ? "NULL" : "\"", lim_null ? "" : brief(limits, 30).c_str(), lim_null ? "" : "\"", rl.ok ? "acceptable" : "has a character that is no name flag", no_file ? "NULL" : "given");
+  // the limits string as the library reads it
+  ExactStr lim_c(limits, lim_null), fmt_c(desc, fmt_null);
+  {
+    CObj<parser_allow> pa;
+    pa->sect = pa->opt = 0x5a5a;
+    int r = mpt_parse_accept(pa, lim_null ? "ns" : lim_c.p);
+    VP_CHECK(c, (r >= 0) == rl.ok, "limits-flags", "mpt_parse_accept(\"%s\") = %d, the string %s", brief(limits, 30).c_str(), r, rl.ok ? "names flag letters only" : "has a character that is no flag letter");
+    if (r >= 0) VP_CHECK(c, pa->sect == rl.sect && pa->opt == rl.opt, "limits-flags", "mpt_parse_accept(\"%s\"): sect=%02x opt=%02x, the letters say sect=%02x opt=%02x", brief(limits, 30).c_str(), pa->sect, pa->opt, rl.sect, rl.opt);
+  }
+  Flags fl;
+  fl.sect = rl.sect;
+  fl.opt = rl.opt;
+
+  // text for the described format and the allowed names
+  Fmt f;
+  f.family = rf.family; f.sstart = rf.sstart; f.send = rf.send; f.ostart = rf.ostart; f.assign = rf.assign; f.oend = rf.oend;
+  memcpy(f.esc, rf.esc, 3);
+  memcpy(f.com, rf.com, 4);
+  f.text = desc;
+  f.null_text = fmt_null;
+  GenLimits lim;
+  lim.max_nodes = 16;
+  lim.huge_values = false;
+  lim.max_value = 300;
+  bool wellformed = f.assign && f.sstart && f.send && name_char_ok(f, 'a') && !f.is_esc('a') && (f.family == 'x' ? f.sstart == f.send : f.sstart != f.send);
+  std::vector<std::string> sect_pool, opt_pool;
+  std::string doc;
+  if (!wellformed || c.chance(30)) { doc = token_soup(c, f); c.label("input:token-soup"); }
+  else {
+    TreeGen g(c, f, fl, lim);
+    std::vector<Node> t = g.tree();
+    make_expressible(t, f);
+    Ctx dc(deco.data(), deco.size(), false);
+    Printer pr(dc, f, !deco.empty());
+    doc = pr.render(t);
+    sect_pool = g.sect_pool;
+    opt_pool = g.opt_pool;
+    Ctx mc(mut.data(), mut.size(), false);
+    size_t nm = mut.empty() ? 0 : 1 + mc.weighted({5, 3, 1});
+    for (size_t k = 0; k < nm; k++) mutate(c, mc, doc, f, false);
+    c.label(nm ? "input:mutated-document" : "input:document");
+  }
+  c.logf("text (%zu bytes): %s", doc.size(), brief(doc, 1000).c_str());
+
+  // target node, with or without children
+  Root target;
+  if (populated) {
+    Flags any;
+    TreeGen g(c, f, any, lim);
+    g.sect_pool = sect_pool;
+    g.opt_pool = opt_pool;
+    std::vector<Node> t = g.tree();
+    c.logf("target children before the call:");
+    log_tree(c, t);
+    VP_CHECK(c, build(target.get(), t), "harness", "could not build the target tree");
+  }
+  Snapshot before;
+  before.take(target.get());
+
+  // reference: mpt_parse_node on the same text with the same format and name flags into a fresh node
+  int ref_rc = -1;
+  std::vector<Node> ref_tree;
+  if (!no_file && rl.ok) {
+    Source src(doc);
+    CObj<parser_context> pc;
+    src.bind(pc);
+    pc->name.sect = fl.sect;
+    pc->name.opt = fl.opt;
+    Root fresh;
+    ref_rc = mpt_parse_node(fresh.get(), pc, fmt_c.p);
+    if (ref_rc >= 0) read_list(fresh.get()->children, ref_tree);
+  }
+
+  TextFile file(doc, prefer_mem);
+  VP_CHECK(c, no_file || file.f, "harness", "cannot open a stream over the text");
+  c.label(no_file ? "file:NULL" : file.memstream ? "file:memory-stream" : "file:tmpfile");
+  int r = mpt_node_parse(target.get(), no_file ? 0 : file.f, fmt_c.p, lim_c.p, 0);
+  c.logf("mpt_node_parse = %d   (mpt_parse_node on the same text: %d; target had %zu nodes)", r, ref_rc, before.addr.size());
+
+  Snapshot after;
+  after.take(target.get());
+  std::string w = walk(target.get());
+  if (no_file) VP_CHECK(c, r < 0, "node-parse-verdict", "mpt_node_parse without a file returned %d", r);
+  else if (!rl.ok) VP_CHECK(c, r < 0, "node-parse-verdict", "mpt_node_parse accepted the limits string \"%s\" (returned %d)", brief(limits, 30).c_str(), r);
+  else VP_CHECK(c, (r < 0) == (ref_rc < 0), "node-parse-verdict", "mpt_node_parse = %d, mpt_parse_node on the same text with the same format and name flags = %d", r, ref_rc);
+  if (r < 0) {
+    // "a failed parse reports an error and leaves the target tree exactly as it was"
+    std::string d = diff(before.tree, after.tree);
+    VP_CHECK(c, d.empty(), "failed-parse-changed-tree", "mpt_node_parse = %d but the target's children differ: %s", r, d.c_str());
+    VP_CHECK(c, before.addr == after.addr, "failed-parse-changed-tree", "mpt_node_parse = %d but the target holds other nodes than before", r);
+    VP_CHECK(c, w.empty(), "failed-parse-changed-tree", "mpt_node_parse = %d and the target is no longer sound: %s", r, w.c_str());
+    c.label(no_file ? "node_parse:no-file" : !rl.ok ? "node_parse:bad-limits" : "node_parse:parse-error");
+    if (populated && !before.addr.empty()) { c.label("node_parse:failed-on-populated-target"); c.nontrivial(); }
+  } else {
+    VP_CHECK(c, w.empty(), "tree-links", "mpt_node_parse = %d, resulting tree: %s", r, w.c_str());
+    std::string d = diff(ref_tree, after.tree);
+    VP_CHECK(c, d.empty(), "node-parse-differs", "mpt_node_parse delivered another tree than mpt_parse_node on the same text: %s", d.c_str());
+    c.label("node_parse:accepted");
+    if (!before.addr.empty()) { c.label("node_parse:replaced-populated-target"); c.nontrivial(); }  // the old nodes: leak / double free oracle
+  }
+  if (lim_null) c.label("limits:NULL");
+  else if (limits.empty()) c.label("limits:empty");
+}
+
 // ---- C++ front end: mpt::config_parser (mpt++/parse.cpp) on files
 struct TmpFile {
   std::string name;
@@ -620,6 +830,7 @@ static void run(Ctx &c) {
   uint8_t sel = c.u8();
   if (sel >= 0x60 && sel < 0x80) { run_cxx(c); return; }
   if (sel >= 0x40 && sel < 0x60) { run_format(c); return; }
+  if (sel >= 0x20 && sel < 0x40) { run_node_parse(c); return; }
   bool sane = !(sel >= 156);  // (was c.chance(100): same byte, same meaning)
   static const int fam[] = {'*', 'x', ' ', '_'};
   int family = fam[c.weighted({6, 2, 2, 1})];
@@ -720,7 +931,9 @@ static Target t = {
     "read / reset / open A / open B / open missing, differential against mpt_parse_node on the same bytes; non-trivial: >= 2 non-empty reads from the start of a file or a failed read "
     "into a populated target. Format descriptions (1 case in 8): drawn description (six head positions incl. blanks/high bytes, 0-7 comment, 0-6 quote characters, blanks, leftovers; "
     "short; NULL) through mpt_parse_format against an independent reading, then a generated text parsed with the described format and with the same delimiters set directly; "
-    "non-trivial: full description and >= 2 elements delivered. Distinct by hash of the draw sequence.",
+    "non-trivial: full description and >= 2 elements delivered. mpt_node_parse (1 case in 8): target with/without children x FILE (memory stream/tmpfile over generated, mutated or token-soup "
+    "text, or NULL) x drawn format description x limits string (flag letters, refused characters, white space, empty, NULL), differential against mpt_parse_node; non-trivial: the target had "
+    "children. Distinct by hash of the draw sequence.",
     run,
     {2500, 6000},
     false,
